@@ -533,7 +533,7 @@ def ap_queue(o, op):
 
 def gen_lock(rng, mo):
     return rng.choice([('acquire', False), ('acquire', False), ('acquire', True, 0.005),
-                       ('release',), ('release',), ('enter_exit',)])
+                       ('acquire', True, 0), ('release',), ('release',), ('enter_exit',)])
 
 
 def _lock_free(mo):
@@ -785,13 +785,40 @@ def run_diff(spec, rec):
         for tname in spec['types']:
             rec.count('types_driven_in_spec')
             for h in range(spec['histories']):
-                try:
-                    diff_history(rec, rng, m, tname, spec['ops'])
-                except Exception as exc:
-                    if not under_test(exc):
-                        raise
+                # the history runs in one worker thread (proxy connections and
+                # lock ownership are per thread); this thread is the watchdog:
+                # a proxy operation that never returns where the local object
+                # returns at once must not end as a harness watchdog
+                box = {}
+
+                def run(box=box):
+                    try:
+                        diff_history(rec, rng, m, tname, spec['ops'])
+                    except BaseException as exc:      # noqa
+                        box['exc'] = exc
+                        box['tb'] = tbtail()
+                th = threading.Thread(target=run, daemon=True)
+                n0 = rec.counters.get('ops_compared', 0)
+                th.start()
+                last, t_last = n0, time.monotonic()
+                while th.is_alive():
+                    th.join(0.5)
+                    n = rec.counters.get('ops_compared', 0)
+                    if n != last:
+                        last, t_last = n, time.monotonic()
+                    elif time.monotonic() - t_last > 45:
+                        rec.violation('client_operation_never_returned',
+                                      {'mode': 'diff', 'type': tname},
+                                      after_ops=n - n0,
+                                      note='the same operation on the local object returns')
+                        rec.flush()
+                        return        # the manager may be wedged: end this spec
+                if 'exc' in box:
+                    exc = box['exc']
+                    if not isinstance(exc, Exception) or not under_test(exc):
+                        raise exc
                     rec.violation('manager_operation_raised', {'mode': 'diff', 'type': tname},
-                                  exc=repr(exc)[:300], tb=tbtail())
+                                  exc=repr(exc)[:300], tb=box.get('tb'))
             rec.flush()
         # a proxy that re-raised a referent's exception sits in a reference
         # cycle (exception -> traceback -> _callmethod frame -> exception)
